@@ -437,9 +437,22 @@ def catchVariant (fd : FDec) (bs0 : Bytes) : Dec (Option Val) := fun bs =>
       else .err e r
   | .panic => .panic
 
-/-- one field action: tag check, then `decode_fn` with the `unknown_var_err` arm. -/
+/-- the K5 repair (docs/K5-candidate.diff): a *tagged* field whose type has a nil value accepts a bare
+    `null` (without the tag) — what an encoder that does not know the field puts at its position —
+    and keeps its initial value.  `Type::Null == d.datatype()? && <has nil>`: the condition the macro
+    generates for "has nil" is the one of the `unknown_var_err` arm (`swallow`). -/
+def bareNull (fd : FDec) : Dec Bool :=
+  if fd.a.tag.isSome then do
+    let t ← Dec.datatype
+    pure (t == .null && fd.swallow)
+  else pure false
+
+/-- one field action: (bare `null` for a tagged nil-capable field, else) tag check, then `decode_fn`
+    with the `unknown_var_err` arm. -/
 def action (fd : FDec) : Dec (Option Val) := fun bs0 =>
-  (do tagCheck fd.a.tag; catchVariant fd bs0 : Dec (Option Val)) bs0
+  (do let b ← bareNull fd
+      if b then do Dec.skip; pure none
+      else do tagCheck fd.a.tag; catchVariant fd bs0 : Dec (Option Val)) bs0
 
 /-- `match i { #(#indices => #actions)* _ => __d777.skip()? }` -/
 def runAt : List FDec → Slots → Nat → Dec Slots
